@@ -128,6 +128,18 @@ pub struct KnownFinding {
     /// any of these must occur (if non-empty)
     #[serde(default)]
     pub any_of: Vec<String>,
+    /// every listed substring must occur in the failing statement's SQL
+    #[serde(default)]
+    pub sql_contains: Vec<String>,
+    /// every listed substring must occur in some statement of the session
+    #[serde(default)]
+    pub script_contains: Vec<String>,
+    /// none of these may occur in the failing statement's SQL
+    #[serde(default)]
+    pub sql_excludes: Vec<String>,
+    /// match only violations that went through the minimiser
+    #[serde(default)]
+    pub minimized_only: bool,
     pub what: String,
 }
 
@@ -141,15 +153,25 @@ pub fn load_known(path: &str) -> Vec<KnownFinding> {
     }
 }
 
-pub fn match_known<'a>(known: &'a [KnownFinding], v: &Violation) -> Option<&'a KnownFinding> {
+pub fn match_known<'a>(known: &'a [KnownFinding], v: &Violation, minimized: bool) -> Option<&'a KnownFinding> {
     let sql = v.scenario.sessions.get(v.session).and_then(|s| s.get(v.stmt)).map(|s| s.sql.as_str()).unwrap_or("");
     let hay = format!("{}\n{}\n{}", v.detail, v.observed, sql);
+    let script: Vec<&str> = v.scenario.sessions.get(v.session).map(|s| s.iter().map(|x| x.sql.as_str()).collect()).unwrap_or_default();
     known.iter().find(|k| {
+        if k.minimized_only && !minimized {
+            return false;
+        }
+        if !k.sql_contains.iter().all(|c| sql.contains(c.as_str())) || k.sql_excludes.iter().any(|c| sql.contains(c.as_str())) {
+            return false;
+        }
+        if !k.script_contains.iter().all(|c| script.iter().any(|st| st.contains(c.as_str()))) {
+            return false;
+        }
         k.status == "open"
             && k.dev.is_none()
             && k.properties.iter().any(|p| p == &v.property)
             && k.class == v.class
-            && (!k.contains.is_empty() || !k.any_of.is_empty())
+            && (!k.contains.is_empty() || !k.any_of.is_empty() || !k.sql_contains.is_empty())
             && k.contains.iter().all(|c| hay.contains(c.as_str()))
             && (k.any_of.is_empty() || k.any_of.iter().any(|c| hay.contains(c.as_str())))
     })
@@ -380,26 +402,33 @@ pub fn run_campaign(cfg: &CampaignCfg, check: &dyn Check) -> CampaignResult {
         }
     }
     let mut reported_classes: BTreeMap<String, usize> = BTreeMap::new();
+    let mut minimised_count = 0usize;
     for (run, v) in raw {
-        if let Some(k) = match_known(&known, &v) {
+        if let Some(k) = match_known(&known, &v, false) {
             stats.known += 1;
             known_lines.insert(format!("KNOWN-FINDING: property={} {} [{}]", v.property, k.what, k.id));
             continue;
         }
         let n = reported_classes.entry(v.class.clone()).or_insert(0);
         *n += 1;
-        if *n > cfg.max_reported.max(2) / 2 || violations.len() >= cfg.max_reported {
+        if minimised_count >= 80 {
+            // too many to minimise: count them (exit 1) without a replay file
             stats.violations += 1;
             continue;
         }
+        minimised_count += 1;
+        let _ = n;
         let min = minimise(check, v, 400);
         // a minimised violation may now match a known finding
-        if let Some(k) = match_known(&known, &min) {
+        if let Some(k) = match_known(&known, &min, true) {
             stats.known += 1;
             known_lines.insert(format!("KNOWN-FINDING: property={} {} [{}]", min.property, k.what, k.id));
             continue;
         }
         stats.violations += 1;
+        if violations.len() >= cfg.max_reported {
+            continue;
+        }
         let file = ReplayFile {
             format: 1,
             property: min.property.clone(),
